@@ -460,7 +460,7 @@ package badger
 
 // Option copies: set from the caller's Options when the structure is created and never changed
 // afterwards (the only later store, lf.opt = vlog.opt in valueLog.open, copies the same value).
-//@ stable badger.DB.opt badger.valueLog.opt badger.logFile.opt badger.memTable.opt
+//@ stable badger.DB.opt badger.valueLog.opt badger.logFile.opt badger.memTable.opt badger.Iterator.opt
 
 // ---- sequences (C30) ----
 
@@ -603,3 +603,21 @@ package badger
 //@   assert[gc-clamp] before closure addKeys : s.kv.gcActive.v != 0 && s.kv.gcDiscardTs.v > 0 ==> discardTs <= s.kv.gcDiscardTs.v
 //@   assert[discard-ts-not-raised] before closure addKeys : discardTs <= ret(discardAtOrBelow#1)
 //@   assert[l0-to-l0-keeps-tombstones] before closure addKeys : cd.thisLevel.level == 0 && cd.nextLevel.level == 0 ==> hasOverlap
+
+// ---- iterator item filter (C05, C01, C33, C28) ----
+
+// Which entries an iterator shows: internal keys and banned namespaces are decided on the user
+// key (so iteration hides exactly what Txn.Get refuses); only versions at or below the read
+// timestamp and above SinceTs; a deleted or expired newest version produces no item, and in
+// forward mode the key is remembered before that test so that older versions stay hidden.
+//@ func (*Iterator).parseItem
+//@   props C05 C01 C33 C28
+//@   light
+//@   assert[user-key-of-current] before call ParseKey#1 : arg0 == ret(Key#1)
+//@   assert[internal-on-user-key] before call HasPrefix : arg0 == ret(ParseKey#1) && arg1 == badgerPrefix
+//@   assert[banned-on-user-key] before call isBanned : arg1 == ret(ParseKey#1)
+//@   assert[version-of-current] before call ParseTs#1 : arg0 == ret(Key#1)
+//@   assert[all-versions-visible-only] before call fill#1 : ret(ParseTs#1) <= it.readTs && (it.opt.SinceTs > 0 ==> ret(ParseTs#1) > it.opt.SinceTs)
+//@   assert[deleted-or-expired-tested] before call isDeletedOrExpired : arg0 == ret(Value#1).Meta && arg1 == ret(Value#1).ExpiresAt
+//@   assert[deleted-or-expired-hidden] before call fill#2 : !ret(isDeletedOrExpired#1)
+//@   assert[key-remembered-first] before call SafeCopy#1 : !called(isDeletedOrExpired) && arg0 == it.lastKey
